@@ -185,15 +185,15 @@ theorem step_sim (s : Store) (inv : Inv s) (sp : SpecSt) (sim : Sim s sp) (op : 
       | some d =>
         simp only [h1, h2, Option.map_some] at ha
         obtain ⟨rows, hg, hperm⟩ := absEq_some_left ha
-        obtain ⟨_, c1, t1, o1, p1, p2⟩ := insert_scan s inv.wf n parts tid d h1 h2
-        have hfit : parts.flatten.map (storeRow d.cols) = parts.flatten := by
-          have g' := g
-          simp only [Guard, insertGuard, h1, h2] at g'
-          exact map_id_of_forall _ _ g'
-        rw [hfit] at p1
-        refine ⟨_, by simp only [stepUp, SpecSt.step, hg]; rw [← o1], ?_⟩
-        simp only [SpecSt.step, hg]
-        exact Sim.of_table inv sim c1 t1 n tid d rows _ h1 h2 hg (p1.trans (hperm.append_right _)) p2
+        cases hok : rowsOk d parts.flatten with
+        | false =>
+          exact ⟨s, by simp [stepUp, insert_rejected s n parts tid d h1 h2 hok, SpecSt.step, hg, hok],
+            by simpa [SpecSt.step, hg, hok] using sim⟩
+        | true =>
+          obtain ⟨_, c1, t1, o1, p1, p2⟩ := insert_scan s inv.wf n parts tid d h1 h2 hok
+          refine ⟨(s.insert n parts).1, by simp only [stepUp, SpecSt.step, hg, hok, Bool.not_true, Bool.false_eq_true, if_false]; rw [← o1], ?_⟩
+          simp only [SpecSt.step, hg, hok, Bool.not_true, Bool.false_eq_true, if_false]
+          exact Sim.of_table inv sim c1 t1 n tid d rows _ h1 h2 hg (p1.trans (hperm.append_right _)) p2
   | delete n p =>
     have ha := sim.abs n
     rw [abs_eq] at ha
